@@ -104,6 +104,20 @@ class HBatch(BatchBase):
     def _flush(self):
         T = self.T
         T.ev.append({"EvFlush": [self.kind, self.index, [list(it.cid) for it in self.items]]})
+        ks = T.kinds.get(str(self.kind), {})
+        if ks.get("probe"):
+            # what the flush body sees as the active task: nobody's code is running unless the flush happens inside a
+            # synchronous call made by a task
+            T.aux({"AuxFlushActive": [self.kind, self.index, T._path_of(scheduler.get_active_task())]})
+        ov = ks.get("override")
+        if ov is not None:
+            # a flush body that works under a scoped override of its own (entered and left inside the body)
+            with T.var(ov[0]).override(T.pyval(ov[1])):
+                return self._flush_body()
+        return self._flush_body()
+
+    def _flush_body(self):
+        T = self.T
         nested = T.kinds.get(str(self.kind), {}).get("nested")
         if nested is not None and not getattr(self, "_nested_done", False):
             # a flush body that itself makes a synchronous call of an @asynq function which blocks on an item of
